@@ -172,17 +172,25 @@ def run_case(case):
             mgt = self
 
             def snap():
-                time.sleep(0.5)
-                s = {"event": idx, "status": status, "directory": {}, "actual": {}}
-                try:
-                    for a in mgt.discovery.agents():
-                        s["directory"][a] = list(mgt.discovery.agent_computations(a))
-                    for a, obj in list(agents_obj.items()):
-                        if a not in removed and obj.is_running:
-                            s["actual"][a] = sorted(c.name for c in obj.computations()
-                                                    if not c.name.startswith(("_", "B")))
-                except Exception as e:
-                    s["error"] = repr(e)[:200]
+                # the state is read 0.5 s after the completion report and, as long as some computation is not seen
+                # exactly once on both sides, re-read every 0.5 s for up to 3 s: publications still travelling to the
+                # directory on a loaded machine must not be mistaken for a lost computation
+                for attempt in range(6):
+                    time.sleep(0.5)
+                    s = {"event": idx, "status": status, "directory": {}, "actual": {}, "attempts": attempt + 1}
+                    try:
+                        for a in mgt.discovery.agents():
+                            s["directory"][a] = list(mgt.discovery.agent_computations(a))
+                        for a, obj in list(agents_obj.items()):
+                            if a not in removed and obj.is_running:
+                                s["actual"][a] = sorted(c.name for c in obj.computations()
+                                                        if not c.name.startswith(("_", "B")))
+                    except Exception as e:
+                        s["error"] = repr(e)[:200]
+                    flat_d = [c for cs in s["directory"].values() for c in cs]
+                    flat_a = [c for cs in s["actual"].values() for c in cs]
+                    if all(flat_d.count(c) == 1 and flat_a.count(c) == 1 for c in vnames):
+                        break
                 snapshots.append(s)
                 if idx == len(case["events"]) - 1:
                     done.set()
